@@ -42,10 +42,10 @@ structure Path where
 def childNamed (n : Node) (s : Str) : Option Nat :=
   match n.kind with
   | .scalar => none
-  | .map => let i := n.kids.findIdx (fun k => k.key == s); if i < n.kids.length then some i else none
+  | .map => let i := n.kids.findIdx (fun k => k.key == some s); if i < n.kids.length then some i else none
   | _ => (pyInt s).bind (pyListIndex n.kids.length)
 
-def nodeAt (root : Node) (el : Pos) : Node := (root.get? el).getD (.mk .scalar [] [] [])
+def nodeAt (root : Node) (el : Pos) : Node := (root.get? el).getD (.mk .scalar none [] [])
 
 /-- step of a slice: `[a:b]` has none, `[a:b:]` has an omitted one -/
 def Step.stride (c : Option (Option Int)) : Option Int := c.bind id
